@@ -1,9 +1,11 @@
 #!/bin/sh
-# Offline setup: parse every specification module and byte-compile the python layer.
+# Offline setup: parse every (tracked) specification module and byte-compile the python layer.
 set -e
 cd "$(dirname "$0")"
 fail=0
-for f in spec/*.tla; do
+mods=$(git ls-files 'spec/*.tla' 2>/dev/null || true)
+[ -n "$mods" ] || mods=$(ls spec/*.tla)
+for f in $mods; do
   out=$(cd spec && java -cp /opt/veriftools/tla/tla2tools.jar:/opt/veriftools/tla/CommunityModules-deps.jar tla2sany.SANY "$(basename "$f")" 2>&1) || true
   if echo "$out" | grep -q -e '\*\*\* Errors' -e 'Fatal' -e 'Could not'; then echo "SANY FAILED: $f"; echo "$out" | tail -20; fail=1; fi
 done
